@@ -75,6 +75,14 @@ func newDisjunctionSearcher(ctx context.Context, indexReader index.IndexReader,
 				for _, s := range qsearchers {
 					_ = s.Close()
 				}
+				if int(min) > 0 {
+					// the optimized searcher stands in for the whole
+					// disjunction, so it has to keep reporting the
+					// disjunction's min; otherwise an enclosing boolean
+					// searcher would treat a required should clause
+					// as optional
+					return &optimizedDisjunctionSearcher{Searcher: rv, min: int(min)}, nil
+				}
 				return rv, nil
 			}
 		}
@@ -122,6 +130,25 @@ func optimizeCompositeSearcher(ctx context.Context, optimizationKind string,
 
 	return newTermSearcherFromReader(ctx, indexReader, tfr,
 		[]byte(optimizationKind), "*", 1.0, options)
+}
+
+// optimizedDisjunctionSearcher wraps the single searcher that replaced an
+// optimized disjunction, preserving the disjunction's min.
+type optimizedDisjunctionSearcher struct {
+	search.Searcher
+	min int
+}
+
+func (s *optimizedDisjunctionSearcher) Min() int {
+	return s.min
+}
+
+func (s *optimizedDisjunctionSearcher) Optimize(kind string,
+	octx index.OptimizableContext) (index.OptimizableContext, error) {
+	if o, ok := s.Searcher.(index.Optimizable); ok {
+		return o.Optimize(kind, octx)
+	}
+	return nil, nil
 }
 
 func tooManyClauses(count int) bool {
